@@ -247,6 +247,8 @@ func registerVrt(p *Program) {
 		return nil
 	}
 	intr["vrtVisible"] = func(fr *frame, a []value) value { return nil }
+	intr["vrtRaceOff"] = func(fr *frame, a []value) value { fr.m.racePaused = true; return nil }
+	intr["vrtRaceOn"] = func(fr *frame, a []value) value { fr.m.racePaused = false; return nil }
 	intr["vrtSharedChan"] = func(fr *frame, a []value) value {
 		s := setup(fr)
 		ch, ok := a[0].(iface).v.(*vchan)
